@@ -70,7 +70,18 @@ func (rt *RoundTripper) cachedResponse(req *http.Request) (*http.Response, error
 }
 
 func (rt *RoundTripper) cacheResponse(req *http.Request, resp *http.Response) {
-	reasons, expires, err := cachecontrol.CachableResponse(req, resp, cachecontrol.Options{PrivateCache: true})
+	judged := resp
+
+	// a header field may be spread over several lines, which are equivalent to one line holding the comma
+	// separated values (RFC 9110, section 5.3). The directives of all of them count, not only those of the first.
+	if values := resp.Header.Values("Cache-Control"); len(values) > 1 {
+		clone := *resp
+		clone.Header = resp.Header.Clone()
+		clone.Header.Set("Cache-Control", strings.Join(values, ", "))
+		judged = &clone
+	}
+
+	reasons, expires, err := cachecontrol.CachableResponse(req, judged, cachecontrol.Options{PrivateCache: true})
 	if err != nil || len(reasons) != 0 {
 		return
 	}
